@@ -1852,7 +1852,9 @@ def check_required_steps(ck, rule, prog, body, steps):
             if not hit:
                 # ... or inside a private helper this call resolves to (one or two levels down: `calculate` -> `pairwise_scores`)
                 tg = prog.bodies.get(t.callee.res) if t.callee.res else None
-                if tg is not None and tg.kind in ("Fn", "AssocFn") and not tg.reachable and not tg.impl_trait and tg.id != body.id:
+                # (... or to a method of the same impl, public or not: `calculate` -> the new fallible sibling `try_calculate(..).expect(..)`)
+                same_impl = tg is not None and tg.impl_self is not None and tg.impl_self == body.impl_self and (tg.file or "") == (body.file or "")
+                if tg is not None and tg.kind in ("Fn", "AssocFn") and (not tg.reachable or same_impl) and not tg.impl_trait and tg.id != body.id:
                     seen_h = set()
                     work_h = [(tg, 0)]
                     while work_h and not hit:
@@ -2158,13 +2160,17 @@ def chain_filters(body, pv, op, allow=()):
     return [m for m in adaptor_chain(body, pv, op) if m in SOFT_FILTERS and m not in allow]
 
 
-def check_every_element(ck, rule, key, body, loop, step_blocks, step_desc, elems_desc):
-    """the step runs once for EVERY element the loop visits, and the loop visits all of them"""
+def check_every_element(ck, rule, key, body, loop, step_blocks, step_desc, elems_desc, excused=None):
+    """the step runs once for EVERY element the loop visits, and the loop visits all of them.
+    excused = (blocks, reason): if every way round the step leads through one of these blocks, the skip is recorded as undecided with that reason"""
     if not step_blocks:
         ck.ob(rule, key + "/every", False, "%s: the loop over %s never performs `%s`" % (body.short, elems_desc, step_desc), where=body.where(loop["line"]))
         return
     skip = loop_skip_path(body, loop, step_blocks)
-    ck.ob(rule, key + "/every", not skip, "%s: `%s` %s" % (body.short, step_desc, ("runs for every element of %s" % elems_desc) if not skip else ("is SKIPPED for some elements of %s (a `continue` or a guard bypasses it)" % elems_desc)), where=body.where(loop["line"]))
+    if skip and excused and excused[0] and not loop_skip_path(body, loop, set(step_blocks) | set(excused[0])):
+        ck.undecided(rule, key + "/every", excused[1], where=body.where(loop["line"]))
+    else:
+      ck.ob(rule, key + "/every", not skip, "%s: `%s` %s" % (body.short, step_desc, ("runs for every element of %s" % elems_desc) if not skip else ("is SKIPPED for some elements of %s (a `continue` or a guard bypasses it)" % elems_desc)), where=body.where(loop["line"]))
     ex = loop_early_exits(body, loop)
     ck.ob(rule, key + "/all", not ex, "%s: the loop over %s %s" % (body.short, elems_desc, "ends only when the iterator is exhausted" if not ex else "can be left early (line %s) and still return normally: the remaining elements are not processed" % body.blocks[ex[0][0]].term.line), where=body.where(loop["line"]))
 
@@ -2952,6 +2958,8 @@ def check_kind_siblings(ck, rule, prog, file_rx=r".*", floor=0):
                     # a call through a crate trait on a type parameter (`D::add_term` in a generic helper): the method's impls decide
                     if any(substantial(x) for x in impls[t.callee.method] if (x.impl_trait or "") == t.callee.trait or (x.impl_trait or "").endswith(t.callee.trait.rsplit("::", 1)[-1])):
                         cc.add(_abs_kind(t.callee.method))
+                elif t.callee.method in ("unwrap_or_default", "unwrap_or", "unwrap_or_else", "map_or", "map_or_else") and "option::Option" in (t.callee.res or t.callee.name or ""):
+                    pass  # a default for an ABSENT value (`map.remove(k).unwrap_or_else(new)`) swallows no error; on a Result it does
                 elif t.callee.method in sus:
                     # selection by content is one class however it is spelled (filter / filter_map(.. then_some) / find ...)
                     st.add("a selecting adaptor (filter / filter_map / find ..)" if t.callee.method in ("filter", "filter_map", "find", "find_map", "flat_map", "retain", "position") else t.callee.method)
@@ -2970,6 +2978,10 @@ def check_kind_siblings(ck, rule, prog, file_rx=r".*", floor=0):
                 for _, t in fb.calls():
                     tg = prog.bodies.get(t.callee.res or "")
                     if tg is not None and tg.kind != "Closure" and is_private_helper(tg):
+                        helper_by_name.setdefault(_abs_kind(tg.name or "?"), tg)
+                    elif tg is not None and tg.kind in ("Fn", "AssocFn") and not tg.impl_trait and tg.id != b.id and (tg.file or "") == (b.file or "") and tg.impl_self == b.impl_self:
+                        # a PUBLIC method of the same impl the variant hands its work to (`annotate_gene` -> the new bulk `annotate_gene_terms`):
+                        # looked into in the same way - what it does must be what the siblings do
                         helper_by_name.setdefault(_abs_kind(tg.name or "?"), tg)
         n += 1
         odd = []
